@@ -27,7 +27,7 @@ def _stub(pid, text, declined=""):
 
 _stub("C20", "Decides structural clauses of C20: configuration schema agreement (R20a = R10a), every option has a consumer "
              "reaching its documented sink, the colour-format registry is total, shared intermediates are keyed by everything "
-             "that parametrises them, per-configuration file namespace is injective, an intermediate's path depends on every argument of its dest function, the resolved configuration is re-written on every invocation, same-named sources get a per-source slot number, the outline flavour follows the output suffix. Does NOT decide that ufo2ft writes the "
+             "that parametrises them, per-configuration file namespace is injective, an intermediate's path depends on every argument of its dest function, the resolved configuration is re-written on every invocation, same-named sources get a per-source slot number, the outline flavour follows the output suffix. Also: a parameter added to a function is read by it (an option threaded through a call chain is not dropped half way, R20k). Does NOT decide that ufo2ft writes the "
              "info fields into the named binary tables.",
       "binary table contents (ufo2ft/fontTools)")
 
